@@ -189,3 +189,57 @@ func Run(name string, budget int, fn func()) (ret string, steps int, fnName, tex
 	}
 	return "hang", n, lab, fmt.Sprintf("step budget of %d exceeded", budget)
 }
+
+// ModeClass is one content of the mode file in the vocabulary of
+// ModeBytes.tla: a prefix of "<base> 2023-09-26" cut after Cut bytes, or a
+// garbage class G.
+type ModeClass struct {
+	Kind string `json:"kind"` // prefix | garbage
+	Base string `json:"base"`
+	Cut  int    `json:"cut"`
+	G    string `json:"g"`
+}
+
+const ModeDate = "2023-09-26"
+
+// Bytes concretizes the class.
+func (m *ModeClass) Bytes() []byte {
+	if m.Kind == "prefix" {
+		full := m.Base + " " + ModeDate
+		if m.Cut > len(full) {
+			return []byte(full)
+		}
+		return []byte(full[:m.Cut])
+	}
+	switch m.G {
+	case "spaces":
+		return []byte("  \t \n")
+	case "padded":
+		return []byte("  on " + ModeDate + "\n")
+	case "crlf":
+		return []byte("off " + ModeDate + "\r\n")
+	case "junkdate":
+		return []byte("on " + ModeDate + " extra")
+	case "twoblank":
+		return []byte("on  " + ModeDate)
+	case "offjunk":
+		return []byte("off x")
+	case "longdate":
+		return []byte("on " + ModeDate + strings.Repeat("9", 1<<16))
+	case "longword":
+		return []byte(strings.Repeat("a", 1<<16))
+	case "utf8":
+		return []byte("\xff\xfeon " + ModeDate)
+	case "newline":
+		return []byte("on\n" + ModeDate)
+	case "nul":
+		return []byte("off\x00 " + ModeDate)
+	case "nuldate":
+		return []byte("on 2023-09\x00\x00\x00")
+	case "blankonly":
+		return []byte("on ")
+	case "dateonly":
+		return []byte(" " + ModeDate)
+	}
+	return []byte(m.G)
+}
